@@ -9,7 +9,7 @@ import (
 
 // kindSwaps: "wrong JSON kinds at every level". For every node of the seed's
 // JSON tree (every member value, array element, nested object) one document
-// per replacement: null, true, 0, "s", [], {}, the node wrapped in an array,
+// per replacement: null, true, 0, "s", [], {}, the node wrapped in an array, the node's own text as a string,
 // and — the structural look-alikes — an array written as an object with the
 // same values (keys k0, k1, ...) and an object written as the array of its
 // values. The seed itself is not included.
@@ -69,7 +69,7 @@ func kindSwaps(seed string) []string {
 	var out []string
 	for _, n := range nodes[1:] { // not the root itself (covered by the byte / token families)
 		own := text(n)
-		repls := []string{"null", "true", "0", `"s"`, "[]", "{}", "[" + own + "]"}
+		repls := []string{"null", "true", "0", `"s"`, "[]", "{}", "[" + own + "]", strconv.Quote(own)} // the last: the node's own text as a JSON string
 		switch n.Kind {
 		case 'a':
 			var sb strings.Builder
